@@ -162,6 +162,10 @@ func loadBaseline(id string) map[string]bool {
 // runCheck runs one property check. overlay (may be nil) replaces files in memory (self-test mutants).
 var outOverride, curOutDir string
 
+// forceLastResort: the self-test sets it for must-pass mutants (a slow machine must not
+// turn a harmless change into an alarm)
+var forceLastResort bool
+
 func runCheck(id, tier string, seed int, repo string, overlay map[string][]byte, updateBaseline, verbose bool, w io.Writer, evidence bool) (int, *checkOutcome) {
 	noEvidence = !evidence
 	outcome := &checkOutcome{}
@@ -282,7 +286,7 @@ func runCheck(id, tier string, seed int, repo string, overlay map[string][]byte,
 			}
 		}
 		// last resort (a loaded machine must not turn into an alarm): 20x, two at a time
-		if len(retry2) > 0 && len(retry2) <= 4 && overlay == nil {
+		if len(retry2) > 0 && len(retry2) <= 4 && (overlay == nil || forceLastResort) {
 			for o, r := range SolveAll(retry2, outDir, 10*timeout, 2, true) {
 				results[o] = r
 			}
